@@ -334,12 +334,18 @@ func addAll(dst map[string]bool, src map[string]bool) bool {
 // blockingOps: what a blocking instruction may wait on. A blocking select waits on each of its arms; arms that
 // are timer channels (time.After, Timer.C, Ticker.C) bound the wait and are not reported.
 func blockingOps(ins ssa.Instruction) []string {
-	timer := func(d string) bool {
-		return d == "result:time.After" || d == "result:time.Tick" || d == "Timer.C" || d == "Ticker.C"
+	// a channel of time.Time values is a timer channel (time.After, Timer.C, Ticker.C, however it reached this point)
+	timerChan := func(v ssa.Value) bool {
+		if ch, ok := v.Type().Underlying().(*types.Chan); ok {
+			if n, ok := types.Unalias(ch.Elem()).(*types.Named); ok && n.Obj().Pkg() != nil && n.Obj().Pkg().Path() == "time" && n.Obj().Name() == "Time" {
+				return true
+			}
+		}
+		return false
 	}
 	switch x := ins.(type) {
 	case *ssa.UnOp:
-		if x.Op == token.ARROW && !timer(chanDesc(x.X)) {
+		if x.Op == token.ARROW && !timerChan(x.X) {
 			return []string{"recv:" + chanDesc(x.X)}
 		}
 	case *ssa.Send:
@@ -351,7 +357,7 @@ func blockingOps(ins ssa.Instruction) []string {
 		var parts []string
 		for _, s := range x.States {
 			cd := chanDesc(s.Chan)
-			if timer(cd) {
+			if timerChan(s.Chan) {
 				continue
 			}
 			d := "recv:"
